@@ -56,7 +56,7 @@ def label_table(F, rep, groups, f):
     if not rep.anchor(rule, "regex group pre_l", g): return
     alts = g.get("alternatives")
     if not alts:
-        rep.bad(rule, "unrecognised-shape:pre_l", "the pre_l group is not an alternation of words", None); return
+        rep.undecided(rule, "unrecognised-shape:pre_l", "the pre_l group is not an alternation of words", None); return
     # which function maps the label text
     sites = info_label_sites(F, f)
     if not sites:
@@ -140,7 +140,7 @@ def normalize_rules(F, rep, f):
         try:
             paths = mir.enum_paths(g, limit=5000)
         except mir.TooManyPaths:
-            rep.bad(rule, "unrecognised-shape:" + g.path, "too many paths in %s" % g.path, g.where()); continue
+            rep.undecided(rule, "unrecognised-shape:" + g.path, "too many paths in %s" % g.path, g.where()); continue
         for p in paths:
             sp = mir.SymPath(g, p)
             for place, val, raw in sp.writes:
@@ -190,7 +190,7 @@ def normal_form(F, rep):
         if c.startswith("crate::version::pep440::display::") and len(t[2]) >= 10:
             fmt_call = (bi, t)
     if fmt_call is None:
-        rep.bad(rule, "unrecognised-shape:display", "Display for PEP440 does not call a local formatter with separators", d.where()); return
+        rep.undecided(rule, "unrecognised-shape:display", "Display for PEP440 does not call a local formatter with separators", d.where()); return
     bi, t = fmt_call
     seps_ok = False
     for a in t[2]:
@@ -246,9 +246,10 @@ def normal_form(F, rep):
     joins = []
     for g in [x for p, x in F.fns.items() if p.startswith("crate::version::pep440::display::")]:
         for b2, t2 in g.calls():
-            if mir.call_matches(t2, ("::join",)):
+            if (mir.callee(t2) or "").endswith("]>::join") and len(t2[2]) > 1:
                 joins.append((g.path.rsplit("::", 1)[-1] if "{" not in g.path else g.path, mir.const_arg(g, t2[2][1])))
-    if len(joins) >= 2 and all(j[1] == "." for j in joins): rep.ok(rule, "release numbers and local segments joined by '.' (%d sites)" % len(joins))
+    if joins and all(j[1] == "." for j in joins): rep.ok(rule, "release numbers and local segments joined by '.' (%d sites)" % len(joins))
+    elif not joins: rep.undecided(rule, "join-separator", "release / local segments are not joined with slice::join in the display module: separator not extracted", d.where())
     else: rep.bad(rule, "join-separator", "release / local not joined by '.': %r" % joins, d.where())
 
 def _variants(fn, switch_block):
